@@ -56,8 +56,9 @@ def run_case(c):
                     desired_solutions=rng.choice([10, 40]), max_nodes=rng.choice([30, 100]))
     if c["kind"] == "gen":
         text, info, reps = SPECS[c["g"]]
-        conss = [consgen.rand_constraint(rng, info, depth=rng.choice([0, 1, 2, 2])) for _ in range(rng.choice([1, 2, 3]))]
-        if rng.random() < 0.4:
+        # 0 = a spec whose only constraints are the repetition bounds of its computed repetitions
+        conss = [consgen.rand_constraint(rng, info, depth=rng.choice([0, 1, 2, 2])) for _ in range(rng.choice([0, 1, 1, 2, 3]))]
+        if conss and rng.random() < 0.4:
             conss.append(consgen.discriminating(rng, info))
             stats["specs_with_discriminating_quantifier"] += 1
         spec = text + "".join("where " + cs.to_text(x) + "\n" for x in conss)
